@@ -32,6 +32,7 @@ const (
 	OTerm               // termination: deadlock, horizon, epilogue hang
 	OMon                // C16 monitors
 	OLedger             // evicted-callback ledger
+	ORace               // the Go race detector reported a data race during the execution
 	OAll    = 0xffff
 )
 
@@ -43,6 +44,9 @@ type OViol struct {
 // Scenario is a closed concurrent program: a deterministic builder of instances.
 type Scenario struct {
 	Seq            *SeqSpec // non-nil: an E2 (sequence search) job instead of a schedule exploration
+	// PostRun is called after every execution (complete or not); a non-empty result is a
+	// violation of kind "race" observed during that execution.
+	PostRun func() string
 	Classes        int      // oracle classes that decide the property this scenario is run for
 	ExpectOutcomes int      // vacuity guard: at least this many distinct outcomes are expected
 	Name           string
@@ -175,6 +179,11 @@ func scheduleStrings(res *sched.Result) []string {
 // returns the violation it produces ("" if none).
 func replayChoices(sc *Scenario, choices []uint8) (kind, detail string, res *sched.Result, inst *Instance) {
 	res, inst = runOnce(sc, choices, 0, nil, true)
+	if sc.PostRun != nil {
+		if d := sc.PostRun(); d != "" {
+			return "race", d, res, inst
+		}
+	}
 	switch res.Outcome {
 	case sched.OComplete:
 		_, vs := inst.Finish(res)
@@ -265,6 +274,17 @@ func Explore(sc *Scenario, opts ExploreOpts) *ExploreStats {
 			st.MaxDepth = len(res.Points)
 		}
 		var vkind, vdetail string
+		if sc.PostRun != nil {
+			if d := sc.PostRun(); d != "" {
+				if strings.HasPrefix(d, "INFRA") {
+					st.Infra = d
+					st.Exhaustive = false
+					st.WallMs = time.Since(t0).Milliseconds()
+					return st
+				}
+				vkind, vdetail = "race", d
+			}
+		}
 		switch res.Outcome {
 		case sched.OComplete:
 			st.Complete++
@@ -275,7 +295,7 @@ func Explore(sc *Scenario, opts ExploreOpts) *ExploreStats {
 					st.OtherObs++
 				}
 			}
-			if v := pickViol(sc, vs); v != "" {
+			if v := pickViol(sc, vs); v != "" && vkind == "" {
 				vkind, vdetail = "oracle", v
 			}
 			np := 0
@@ -354,7 +374,7 @@ func Explore(sc *Scenario, opts ExploreOpts) *ExploreStats {
 				ok := true
 				var rr *sched.Result
 				var ri *Instance
-				for k := 0; k < 5; k++ {
+				for k := 0; k < 5 && vkind != "race"; k++ { // the race detector reports each race once per process
 					k2, _, r, i := replayChoices(sc, ch)
 					if k2 != vkind {
 						ok = false
@@ -368,8 +388,15 @@ func Explore(sc *Scenario, opts ExploreOpts) *ExploreStats {
 					st.WallMs = time.Since(t0).Milliseconds()
 					return st
 				}
+				if vkind == "race" {
+					rr, ri = runOnce(sc, ch, 0, nil, true)
+					sc.PostRun()
+				}
 				v := Violation{Scenario: sc.Name, Kind: vkind, Detail: vdetail, Choices: ch, Schedule: scheduleStrings(rr),
 					Signature: vkind + ": " + firstLine(vdetail) + " @ " + sc.Name}
+				if vkind == "race" {
+					v.Signature = raceSignature(vdetail)
+				}
 				if ri != nil && ri.Describe != nil {
 					v.History = ri.Describe()
 				}
